@@ -1,7 +1,7 @@
 /-
   C16 — rotations and spherical coordinates.
   Executable model of src/Linear_Algebra.cpp: Vector::Norm/Normalize/Normalized, Angle,
-  Spherical_Coordinates (both overloads, as repaired by 90a1c5d and 1e66dff), Rotation_Matrix.
+  Spherical_Coordinates (both overloads, as repaired by 90a1c5d, 1e66dff and ded1f77), Rotation_Matrix.
   Exact rationals; core-only (no Mathlib).
 
   Non-rational functions are parameters (DESIGN.md §3.2):
@@ -145,12 +145,21 @@ def rotationMatrix (sq : Rat → Rat) (c s : Rat) (dim : Int) (axis : List Rat) 
 /-- `Spherical_Coordinates(r, theta, phi)` with `ct = cos theta`, `st = sin theta`, … -/
 def spherical (r ct st cp sp : Rat) : V3 := ⟨r * st * cp, r * st * sp, r * ct⟩
 
-/-- the general-frame branch for a unit axis `ev` with `aux = sqrt(ev_x²+ev_y²) ≠ 0`
-    (`sin_theta = sin(theta)` since 1e66dff). -/
+/-- `std::hypot(a, b)`: the real function `sqrt(a² + b²)`, evaluated by the C library without
+    intermediate underflow/overflow of the squares.  In exact arithmetic it is `sq (a*a + b*b)`;
+    that libm's `hypot` approximates it for every finite pair (also where the squares are subnormal)
+    is trusted and measured by the correspondence run. -/
+def hypot (sq : Rat → Rat) (a b : Rat) : Rat := sq (a * a + b * b)
+
+/-- the general-frame branch for a unit axis `ev` with transverse length `aux = hypot(ev_x, ev_y) ≠ 0`
+    (`sin_theta = sin(theta)` since 1e66dff; since ded1f77 the transverse components are divided by
+    `aux` first: `tx = ev_x/aux`, `ty = ev_y/aux` is the unit vector of the axis' projection on the xy plane). -/
 def sphericalFrame (r ct st cp sp : Rat) (ev : V3) (aux : Rat) : V3 :=
+  let tx := ev.x / aux
+  let ty := ev.y / aux
   V3.smul r
-    ⟨ct * ev.x + st / aux * (ev.x * ev.z * cp - ev.y * sp),
-     ct * ev.y + st / aux * (ev.y * ev.z * cp + ev.x * sp),
+    ⟨ct * ev.x + st * (tx * ev.z * cp - ty * sp),
+     ct * ev.y + st * (ty * ev.z * cp + tx * sp),
      ct * ev.z - aux * cp * st⟩
 
 /-- which of the three branches of the repaired code is taken -/
@@ -160,16 +169,16 @@ inductive Branch where
 
 def sphericalBranch (sq : Rat → Rat) (axis : V3) : Branch :=
   let ev := normalize3 sq axis
-  let aux := sq (ev.x * ev.x + ev.y * ev.y)
+  let aux := hypot sq ev.x ev.y
   if norm3 sq axis = 0 ∨ (aux = 0 ∧ ev.z > 0) then .plain
   else if aux = 0 then .antiz
   else .general
 
-/-- `Spherical_Coordinates(r, theta, phi, axis)` as coded after 90a1c5d and 1e66dff:
+/-- `Spherical_Coordinates(r, theta, phi, axis)` as coded after 90a1c5d, 1e66dff and ded1f77:
     `(ct, st) = (cos theta, sin theta)`, `(cp, sp) = (cos phi, sin phi)` in every branch. -/
 def sphericalAxis (sq : Rat → Rat) (r ct st cp sp : Rat) (axis : V3) : V3 :=
   let ev := normalize3 sq axis
-  let aux := sq (ev.x * ev.x + ev.y * ev.y)
+  let aux := hypot sq ev.x ev.y
   match sphericalBranch sq axis with
   | .plain => spherical r ct st cp sp
   | .antiz =>
@@ -178,8 +187,8 @@ def sphericalAxis (sq : Rat → Rat) (r ct st cp sp : Rat) (axis : V3) : V3 :=
   | .general => sphericalFrame r ct st cp sp ev aux
 
 /-- the frame vectors of the general branch: `v = r (ct·ev + st·cp·e1 + st·sp·e2)` -/
-def frameE1 (ev : V3) (aux : Rat) : V3 := ⟨ev.x * ev.z / aux, ev.y * ev.z / aux, -aux⟩
-def frameE2 (ev : V3) (aux : Rat) : V3 := ⟨-ev.y / aux, ev.x / aux, 0⟩
+def frameE1 (ev : V3) (aux : Rat) : V3 := ⟨ev.x / aux * ev.z, ev.y / aux * ev.z, -aux⟩
+def frameE2 (ev : V3) (aux : Rat) : V3 := ⟨-(ev.y / aux), ev.x / aux, 0⟩
 
 /-! ### a concrete `sq` for the driver: exact on rational squares, otherwise rounded down to
     a relative precision of about 2^-k (validated numerical oracle, not used by any theorem) -/
